@@ -11,6 +11,7 @@ import (
 	"io"
 	"os"
 	"reflect"
+	"regexp"
 	"runtime/metrics"
 	"sync"
 	"sync/atomic"
@@ -398,6 +399,8 @@ func (s *State) Header(h int) (V, bool) {
 	return s.emit(V{"op": "header", "h": h, "out": abs.Hdr(hd), "post": same}), true
 }
 
+var fmtPanic = regexp.MustCompile(`%!\+?[a-zA-Z]\(PANIC=[A-Za-z]+ method: [^)]{0,120}`)
+
 func (s *State) String(h int) V {
 	x := s.Pk[h]
 	before := absAny(x)
@@ -415,6 +418,12 @@ func (s *State) String(h int) V {
 			txt += fmt.Sprintf("|%v", reflect.Indirect(reflect.ValueOf(p)).Interface())
 		}
 	})
+	if !pan {
+		// fmt recovers a panic raised inside a nested String method and prints it in place: still a panic of String()
+		if m := fmtPanic.FindString(txt); m != "" {
+			pan, msg = true, "recovered by fmt: "+m
+		}
+	}
 	sum := sha256.Sum256([]byte(txt))
 	ev := V{"op": "string", "h": h, "panic": pan, "out": abs.Bytes(sum[:6]), "post": post(before, x), "n": len(txt), "memsame": s.memSame(h) && s.earlierSame()}
 	if pan {
